@@ -553,6 +553,8 @@ class Translator:
                 return self.hooks[callee.key](self, args, kwargs, n)
             return self.call_fn(callee, args, kwargs, depth=depth + 1)
         if isinstance(callee, BoundMethod):
+            if callee.fn.key in self.hooks:
+                return self.hooks[callee.fn.key](self, [callee.self_obj] + list(args), kwargs, n)
             return self.call_fn(callee.fn, args, kwargs, self_obj=callee.self_obj, depth=depth + 1)
         if isinstance(callee, Closure):
             node = callee.node
@@ -821,6 +823,10 @@ class Translator:
         if last in ("reduce_sum", "sum") and is_arr(a0):
             k = ax(None)
             r = np.sum(a0, axis=k)
+            return r[()] if isinstance(r, np.ndarray) and r.shape == () else r
+        if last in ("reduce_prod", "prod") and is_arr(a0):
+            k = ax(None)
+            r = np.prod(a0, axis=k)
             return r[()] if isinstance(r, np.ndarray) and r.shape == () else r
         if last == "expand_dims":
             return np.expand_dims(as_arr(a0), ax(-1))
@@ -1092,10 +1098,46 @@ def canon(e):
     return e
 
 
-def equal(a, b, seed=0, symbols_domain=None):
+def canon_squares(e):
+    """second-stage normalisation: sqrt(C * f1^2k * g) -> f1^k * sqrt(C * g) for every factor f1 of the radicand whose
+    sign is decided positive / non-negative from the symbols' assumptions (sum of positive terms after expansion)"""
+    e = sp.sympify(e)
+
+    def fix(x):
+        if not (x.is_Pow and x.exp.is_Rational and x.exp.q == 2):
+            return x
+        base = sp.cancel(sp.together(x.base))
+        if len(str(base)) > 4000:
+            return x
+        num, den = sp.fraction(base)
+        out, rest = sp.Integer(1), sp.Integer(1)
+        for part, sgn in ((num, 1), (den, -1)):
+            try:
+                c, facs = sp.factor_list(part)
+            except Exception:
+                return x
+            rest *= c ** sgn
+            for f, k in facs:
+                fe = sp.expand(f)
+                if k >= 2 and (fe.is_positive or fe.is_nonnegative):
+                    out *= f ** (sgn * (k // 2) * x.exp.p)
+                    if k % 2:
+                        rest *= f ** sgn
+                else:
+                    rest *= f ** (sgn * k)
+        if out == 1:
+            return x
+        return out * sp.Pow(rest, x.exp)
+
+    return e.replace(lambda x: x.is_Pow and x.exp.is_Rational and x.exp.q == 2, fix)
+
+
+def equal(a, b, seed=0, symbols_domain=None, _stage=0):
     """(verdict, detail): verdict True (identity proved), False (numeric witness of difference),
     None (normaliser too weak: equal at all probe points but identity not established)."""
     a, b = canon(a), canon(b)
+    if _stage == 1:
+        a, b = canon_squares(a), canon_squares(b)
     diff = sp.together(sp.expand_complex(a - b) if (a - b).has(sp.I) and not (a - b).has(sp.re, sp.im, sp.conjugate) else a - b)
     try:
         nume = sp.expand(sp.numer(diff))
@@ -1148,4 +1190,8 @@ def equal(a, b, seed=0, symbols_domain=None):
         scale = max(abs(va), abs(vb), 1)
         if d > scale * sp.Float("1e-30"):
             return False, "differs at %s: %s vs %s" % ({str(k): str(v) for k, v in pt.items()}, sp.N(va, 12), sp.N(vb, 12))
+    if _stage == 0 and (a.has(sp.Pow) or b.has(sp.Pow)):
+        r = equal(a, b, seed, symbols_domain, _stage=1)  # perfect-square radicands
+        if r[0] is True:
+            return r
     return None, "equal at 6 probe points but the identity was not established symbolically"
